@@ -1,31 +1,51 @@
 """C15 / C16 — thread stress under world-stopping operations (shared workload, two verdicts).
 
-Generated multi-thread programs (2..8 native threads + main): allocation-heavy work with cyclic
+Generated multi-thread programs (1..8 native threads + main): allocation-heavy work with cyclic
 garbage, forced full collections at a seeded cadence (H-gc: through the engine's own stop-the-world
 and stack-enumeration code), explicit collections from several threads at once, assignments of
-globals from threads, channels with (sender id, sequence number) payloads, blocking receives made
-directly and through library procedures (map over channel/recv), mutex-protected counters, threads
-exiting while collections are in progress, joins in seeded order.
+globals from threads (also racing with collections and with each other), channels with
+(sender id, sequence number) payloads, blocking receives made directly, through `apply` and through
+library procedures (map over channel/recv), mutex-protected global counters, long box chains kept only
+on a thread's stack, threads spawning threads while others collect, threads exiting while collections
+are in progress, joins in seeded order.  Every program is run at the top level and compiled as a
+module (native code paths), JIT on and off, with and without seeded delays injected at the
+suspension points of the stop-the-world handshake (H-sync `sync_delay`).
 
-C16 (progress, restated as bounded progress): every program must finish within its deadline; a
-joined thread's result is delivered exactly once (the program's own report is compared with the
-closed form); every sent value is received exactly once and in order per sender.
-C15 (consistency of world-stopping operations): no access through a live handle to a slot the
-collector freed while other threads ran (H-slot), no crash, and an assignment of a global made by a
-thread before it is joined is seen by the joiner afterwards; mutex-protected counters are exact."""
+C16 (progress, restated as bounded progress): a run is *stalled* when none of the H-prog counters
+(instructions dispatched, safepoint entries, stop-the-world begun / finished, collections) moved for
+10 s - the watchdog lives in the child and decides on the counters; reaching the generous wall-clock
+cap while the counters still move is inconclusive.  A joined thread's result is delivered exactly
+once; every sent value is received exactly once and in order per sender (computed by the program over
+the received history and compared with the closed form).
+C15 (consistency of world-stopping operations): H-sync - no thread executes an instruction or leaves
+a safepoint while a stopper inspects / replaces its state (`!ran-while-inspected`); H-slot - no access
+through a live handle to a slot the collector freed; no crash; box chains that live only on a
+running thread's stack survive other threads' collections; an assignment of a global is seen by a
+thread that learns of it afterwards (through a channel or a join); mutex-protected global counters
+are exact."""
 import json
+import re
 
 from . import core
 
 PRELUDE = """(define (box-cycle n) (let ((first (box 0))) (let loop ((i 1) (prev first)) (if (< i n) (loop (+ i 1) (box prev)) (begin (set-box! first prev) 'made)))))
-(define (sum-to n) (let loop ((i 0) (a 0)) (if (< i n) (loop (+ i 1) (+ a i)) a)))"""
+(define (sum-to n) (let loop ((i 0) (a 0)) (if (< i n) (loop (+ i 1) (+ a i)) a)))
+(define (chain-base b depth) (let loop ((b b) (d 0)) (if (< d depth) (loop (unbox b) (+ d 1)) (list d b))))"""
+
+KINDS = ["channels", "channels-via-map", "channels-via-apply", "mutex-counter", "global-assignment", "collectors",
+         "exit-during-stop", "box-chains", "spawn-tree", "assign-then-tell", "assigners-vs-collectors"]
+# which property a wrong *result* of a finished program speaks about
+OWNER = {"channels": "C16", "channels-via-map": "C16", "channels-via-apply": "C16", "exit-during-stop": "C16",
+         "collectors": "C15", "mutex-counter": "C15", "global-assignment": "C15", "box-chains": "C15",
+         "spawn-tree": "C15", "assign-then-tell": "C15", "assigners-vs-collectors": "C15"}
 
 
-def gen_program(r, workers, n):
-    kind = r.choice(["channels", "channels-via-map", "mutex-counter", "global-assignment", "collectors", "exit-during-stop", "mixed"])
+def gen_program(r, workers, n, kind=None):
+    kind = kind or r.choice(KINDS)
     L = [PRELUDE]
     exp = []
-    if kind in ("channels", "channels-via-map", "mixed"):
+    gc = r.choice(["(#%verif-full-gc)", "(#%verif-full-gc)", "(#%gc-collect)"])
+    if kind in ("channels", "channels-via-map", "channels-via-apply"):
         L.append("(define ch (channels/new))\n(define tx (channels-sender ch))\n(define rx (channels-receiver ch))")
         L.append("""(define (worker id n)
   (let loop ((i 0) (acc 0))
@@ -38,6 +58,8 @@ def gen_program(r, workers, n):
         total = workers * n
         if kind == "channels-via-map":
             L.append("(define received (map (lambda (k) (channel/recv rx)) (range 0 %d)))" % total)
+        elif kind == "channels-via-apply":
+            L.append("(define received (let loop ((k 0) (acc '())) (if (< k %d) (loop (+ k 1) (cons (apply channel/recv (list rx)) acc)) (reverse acc))))" % total)
         else:
             L.append("(define received (let loop ((k 0) (acc '())) (if (< k %d) (loop (+ k 1) (cons (begin (box-cycle 2) (channel/recv rx)) acc)) (reverse acc))))" % total)
         order = r.choice(["(reverse threads)", "threads"])
@@ -74,51 +96,142 @@ def gen_program(r, workers, n):
         exp.append("(L" + "".join(" i:%d" % i for i in range(workers)) + ")")
         exp.append("(L" + "".join(' (L y:"set-by" i:%d)' % i for i in range(workers)) + ")")
     elif kind == "collectors":
+        # every thread keeps a value in a box that only its own loop variable refers to
         L.append("""(define (worker id n)
-  (let loop ((i 0) (keep (box id)))
+  (let loop ((i 0) (keep (box (list id 0))))
     (if (< i n)
-        (begin (box-cycle 5) (when (= 0 (modulo i 7)) (#%gc-collect)) (loop (+ i 1) (box (unbox keep))))
-        (unbox keep))))""")
-        L.append("(define threads (map (lambda (id) (spawn-native-thread (lambda () (worker id %d)))) (range 0 %d)))" % (min(n, 60), workers))
-        L.append("(#%gc-collect)\n(verif-emit (map thread-join! threads))")
-        exp.append("(L" + "".join(" i:%d" % i for i in range(workers)) + ")")
+        (begin (box-cycle 5) (when (= 0 (modulo i 7)) %s) (loop (+ i 1) (box (list id (+ 1 (car (cdr (unbox keep))))))))
+        (unbox keep))))""" % gc)
+        m = min(n, 40)
+        L.append("(define threads (map (lambda (id) (spawn-native-thread (lambda () (worker id %d)))) (range 0 %d)))" % (m, workers))
+        L.append("%s\n(verif-emit (map thread-join! threads))" % gc)
+        exp.append("(L" + "".join(" (L i:%d i:%d)" % (i, m) for i in range(workers)) + ")")
+    elif kind == "box-chains":
+        # a chain of boxes referenced only by a loop variable of a running thread, extended two boxes at a time
+        L.append("""(define (worker id n)
+  (let loop ((i 0) (prev id))
+    (if (< i n) (loop (+ i 1) (box (box prev))) (chain-base prev (* 2 n)))))""")
+        L.append("(define threads (map (lambda (id) (spawn-native-thread (lambda () (worker id %d)))) (range 0 %d)))" % (n * 4, workers))
+        L.append("(box-cycle 20) %s\n(verif-emit (map thread-join! threads))" % gc)
+        exp.append("(L" + "".join(" (L i:%d i:%d)" % (n * 8, i) for i in range(workers)) + ")")
+    elif kind == "spawn-tree":
+        # threads that spawn threads while the others allocate and collect; every thread's first boxes must survive
+        L.append("""(define (leaf id) (let ((a (box id)) (b (box (box id)))) (box-cycle 6) (list (unbox a) (unbox (unbox b)))))
+(define (node id fanout)
+  (let ((mine (box (list 'node id))))
+    (let ((kids (map (lambda (k) (spawn-native-thread (lambda () (leaf (+ (* id 10) k))))) (range 0 fanout))))
+      (box-cycle 8)
+      (list (unbox mine) (map thread-join! kids)))))""")
+        fan = 2 if workers > 4 else 3
+        rounds = max(1, n // 40)
+        L.append("""(define results (let loop ((round 0) (acc '()))
+  (if (< round %d)
+      (let ((ts (map (lambda (id) (spawn-native-thread (lambda () (node id %d)))) (range 0 %d))))
+        %s
+        (loop (+ round 1) (cons (map thread-join! ts) acc)))
+      acc)))
+(verif-emit (length results))
+(verif-emit (equal? results (map (lambda (round) (map (lambda (id) (list (list 'node id) (map (lambda (k) (list (+ (* id 10) k) (+ (* id 10) k))) (range 0 %d)))) (range 0 %d))) (range 0 %d))))""" % (
+            rounds, fan, workers, gc, fan, workers, rounds))
+        exp.append("i:%d" % rounds)
+        exp.append("#t")
+    elif kind == "assign-then-tell":
+        # a writer assigns a global and then tells a reader (through a channel); the reader must see at least that value
+        L.append("(define g 0)\n(define ch (channels/new))\n(define tx (channels-sender ch))\n(define rx (channels-receiver ch))")
+        L.append("""(define (writer n) (let loop ((i 1)) (if (<= i n) (begin (set! g i) (channel/send tx i) (box-cycle 2) (loop (+ i 1))) 'w)))
+(define (reader n)
+  (let loop ((k 0) (bad 0))
+    (if (< k n)
+        (let ((told (channel/recv rx)))
+          (loop (+ k 1) (if (>= g told) bad (+ bad 1))))
+        bad)))
+(define (busy id n) (let loop ((i 0)) (if (< i n) (begin (box-cycle 3) (loop (+ i 1))) id)))""")
+        L.append("(define rd (spawn-native-thread (lambda () (reader %d))))" % n)
+        L.append("(define others (map (lambda (id) (spawn-native-thread (lambda () (busy id %d)))) (range 0 %d)))" % (n, max(0, workers - 2)))
+        L.append("(define wr (spawn-native-thread (lambda () (writer %d))))" % n)
+        L.append("(verif-emit (thread-join! wr))\n(verif-emit (thread-join! rd))\n(verif-emit (map thread-join! others))\n(verif-emit g)")
+        exp += ['y:"w"', "i:0", "(L" + "".join(" i:%d" % i for i in range(max(0, workers - 2))) + ")", "i:%d" % n]
+    elif kind == "assigners-vs-collectors":
+        # half of the threads assign their own global in a loop, the other half collect; final values are the last assigned
+        na = max(1, workers // 2)
+        L.append("\n".join("(define a%d -1)" % i for i in range(na)))
+        for i in range(na):
+            L.append("(define (assigner%d n) (let loop ((i 0)) (if (< i n) (begin (set! a%d i) (box-cycle 2) (loop (+ i 1))) a%d)))" % (i, i, i))
+        L.append("(define (collector id n) (let loop ((i 0) (keep (box id))) (if (< i n) (begin (box-cycle 4) (when (= 0 (modulo i 5)) (#%verif-full-gc)) (loop (+ i 1) (box (unbox keep)))) (unbox keep))))")
+        m = min(n, 50)
+        L.append("(define ts (list %s))" % " ".join(
+            ["(spawn-native-thread (lambda () (assigner%d %d)))" % (i, m) for i in range(na)] +
+            ["(spawn-native-thread (lambda () (collector %d %d)))" % (i, m) for i in range(workers - na)]))
+        L.append("(verif-emit (map thread-join! ts))\n(verif-emit (list %s))" % " ".join("a%d" % i for i in range(na)))
+        exp.append("(L" + "".join(" i:%d" % (m - 1) for i in range(na)) + "".join(" i:%d" % i for i in range(workers - na)) + ")")
+        exp.append("(L" + "".join(" i:%d" % (m - 1) for i in range(na)) + ")")
     else:  # exit-during-stop: short-lived threads finishing while the main thread keeps collecting
+        rounds = max(2, n // 20)
         L.append("""(define (short id) (box-cycle 4) (list 'bye id))
 (define results (let loop ((round 0) (acc '()))
   (if (< round %d)
       (let ((ts (map (lambda (id) (spawn-native-thread (lambda () (short id)))) (range 0 %d))))
-        (#%%gc-collect) (box-cycle 10)
+        %s (box-cycle 10)
         (loop (+ round 1) (append acc (map thread-join! ts))))
       acc)))
 (verif-emit (length results))
 (verif-emit (equal? results (apply append (map (lambda (round) (map (lambda (id) (list 'bye id)) (range 0 %d))) (range 0 %d)))))""" % (
-            max(2, n // 20), workers, workers, max(2, n // 20)))
-        exp.append("i:%d" % (workers * max(2, n // 20)))
+            rounds, workers, gc, workers, rounds))
+        exp.append("i:%d" % (workers * rounds))
         exp.append("#t")
     return kind, "\n".join(L), exp
 
 
-def run(prop, tier):
-    rep = core.Reporter(prop, tier)
-    nprog = 28 if tier == "quick" else 1200
+CONFIGS = [
+    # name, env, case options
+    ("jit-off", {"STEEL_JIT": "false"}, {}),
+    ("jit-off+forced-gc+delays", {"STEEL_JIT": "false"}, {"gc_every": 40, "sync_delay_us": 200}),
+    ("jit-on", {}, {}),
+    ("jit-on+forced-gc+delays", {}, {"gc_every": 40, "sync_delay_us": 200}),
+    ("module+forced-gc", {}, {"gc_every": 60, "as_module": True}),
+    ("module+delays", {}, {"sync_delay_us": 400, "as_module": True}),
+]
+THOROUGH_CONFIGS = CONFIGS + [
+    ("jit-off+delays", {"STEEL_JIT": "false"}, {"sync_delay_us": 1000}),
+    ("jit-on+gc-jitter", {}, {"gc_every": 25, "gc_jitter": 20}),
+    ("module-jit-off+forced-gc+delays", {"STEEL_JIT": "false"}, {"gc_every": 40, "sync_delay_us": 200, "as_module": True}),
+    ("module+forced-gc+delays", {}, {"gc_every": 30, "sync_delay_us": 300, "as_module": True}),
+]
+STALL_MS = 10000
+CAP_MS = 150000
+SYNC_COUNTERS = ("STOP_THE_WORLD", "STOP_THE_WORLD_FINISHED", "SCANS_OF_OTHER_THREADS", "SAFEPOINT_ENTRIES", "FORCED_COLLECTIONS",
+                 "FULL_COLLECTIONS", "INSTRUCTIONS", "UNREACHABLE_FLAG_SEEN_DURING_COLLECTION")
+
+
+def programs(tier):
+    nprog = 33 if tier == "quick" else 660
     r = core.rng("C16")     # the same workload for both properties
     progs = []
     for i in range(nprog):
         workers = r.choice([1, 2, 2, 3, 4, 4, 6, 8])
         n = r.choice([20, 50, 120])
-        kind, src, exp = gen_program(r, workers, n)
+        kind, src, exp = gen_program(r, workers, n, KINDS[i % len(KINDS)])   # every kind, every run
         progs.append((kind, workers, n, src, exp))
+    return progs
+
+
+def run(prop, tier):
+    rep = core.Reporter(prop, tier)
+    progs = programs(tier)
     rep.coverage["rule"] = (
-        "generated programs with 1..8 native threads (see module docstring) x {JIT on, JIT off} x {no forced collections, a "
-        "forced full collection every 40th allocation}; distinct by (program, config); non-trivial = >= 2 threads ran and "
-        "(for forced-collection configs) >= 5 forced collections happened while they ran")
-    configs = [("jit-off", {"STEEL_JIT": "false"}, {}), ("jit-off+forced-gc", {"STEEL_JIT": "false"}, {"gc_every": 40}),
-               ("jit-on", {}, {}), ("jit-on+forced-gc", {}, {"gc_every": 40})]
-    stats = {"finished": 0, "hung": 0, "forced_collections": 0}
-    for cname, env, opts in configs:
+        "generated programs with 1..8 native threads (11 kinds, see module docstring) x configurations {JIT on/off, top level / "
+        "compiled as a module, forced full collections every k-th allocation, seeded delays at the handshake's suspension "
+        "points}; distinct by (program, config); non-trivial = >= 2 threads ran and a stopper inspected another thread's "
+        "state at least once in that run (H-sync counter SCANS_OF_OTHER_THREADS)")
+    configs = CONFIGS if tier == "quick" else THOROUGH_CONFIGS
+    stats = {"finished": 0, "stalled": 0, "cap_reached_while_progressing": 0}
+    observed = {k: 0 for k in SYNC_COUNTERS}
+    per_kind = {}
+    for ci, (cname, env, opts) in enumerate(configs):
         cases = []
         for i, (kind, workers, n, src, exp) in enumerate(progs):
-            c = {"id": "p%d" % i, "units": [src], "timeout_ms": 20000 if tier == "quick" else 60000, "no_vals": True, "mem_mb": 8192}
+            c = {"id": "p%d" % i, "units": [src], "timeout_ms": CAP_MS, "stall_ms": STALL_MS, "no_vals": True, "mem_mb": 8192,
+                 "sync_seed": core.seed() * 1000 + ci * 100 + i}
             c.update(opts)
             cases.append(c)
         results, meta = core.run_cases(cases, env=env, tag="c16", shards=8)
@@ -130,58 +243,83 @@ def run(prop, tier):
                 continue
             rep.count()
             cnt = res.get("counters") or {}
-            stats["forced_collections"] += cnt.get("FORCED_COLLECTIONS", 0)
-            if workers >= 2 and (not opts or cnt.get("FORCED_COLLECTIONS", 0) >= 5):
+            for k in SYNC_COUNTERS:
+                observed[k] += cnt.get(k, 0)
+            pk = per_kind.setdefault(kind, {"runs": 0, "scans_of_other_threads": 0, "stop_the_world": 0})
+            pk["runs"] += 1
+            pk["scans_of_other_threads"] += cnt.get("SCANS_OF_OTHER_THREADS", 0)
+            pk["stop_the_world"] += cnt.get("STOP_THE_WORLD", 0)
+            if workers >= 2 and cnt.get("SCANS_OF_OTHER_THREADS", 0) >= 1:
                 rep.nontrivial((src, cname))
-            replay = {"config": env, "opts": opts, "src": src, "expected": exp}
-            jit = "JIT on" if not env else "JIT off"
-            if res["status"] == "timeout":
-                stats["hung"] += 1
+            replay = {"config": env, "opts": opts, "src": src, "expected": exp, "sync_seed": cases[i]["sync_seed"]}
+            ctx = "%s%s%s%s" % ("JIT on" if "STEEL_JIT" not in env else "JIT off", ", module" if opts.get("as_module") else "",
+                                ", forced collections" if opts.get("gc_every") else "", ", delays" if opts.get("sync_delay_us") else "")
+            err = res.get("stderr_tail", "")
+            if res["status"] == "exit:97" and "VHSTALL" in err:
+                stats["stalled"] += 1
                 if prop == "C16":
-                    rep.violation("C16 a %s program with threads does not finish (%s%s)" % (kind, jit, ", forced collections" if opts else ""),
-                                  "config=%s workers=%d n=%d: no result by the deadline (20 s quick / 60 s thorough)" % (cname, workers, n), replay)
+                    m = re.search(r"VHSTALL (\{.*\})", err)
+                    info = json.loads(m.group(1)) if m else {}
+                    where = "inside a stop-the-world rendezvous" if info.get("stoppers_active") else "with no stop request pending"
+                    rep.violation("C16 a %s program with threads stalls %s (%s)" % (kind, where, ctx),
+                                  "config=%s workers=%d n=%d: no progress counter moved for %d s; %s" % (cname, workers, n, STALL_MS // 1000, json.dumps(info)), replay)
+                continue
+            if res["status"] == "timeout":
+                stats["cap_reached_while_progressing"] += 1
+                rep.inconclusive_note("%s/%s: wall-clock cap of %d s reached while the progress counters were still moving" % (kind, cname, CAP_MS // 1000))
                 continue
             if res["status"] != "ok":
-                err = res.get("stderr_tail", "")
                 if "memory allocation of" in err:
                     rep.inconclusive_note("address-space cap hit (%s, %s, %d workers)" % (kind, cname, workers))
                     continue
-                import re
                 pm = re.search(r"VHPANIC ([^\n|]+?):\d+ \| ([^\n]*)", err)
                 why = "panic at %s: %s" % (pm.group(1), re.sub(r"\d+", "N", pm.group(2))[:60]) if pm else "process %s" % res["status"]
-                rep.violation("%s threads (%s): %s (%s)" % (prop, kind, why, jit), "config=%s workers=%d stderr=%s" % (cname, workers, err[-300:]), replay)
+                rep.violation("%s threads (%s): %s (%s)" % (prop, kind, why, ctx), "config=%s workers=%d stderr=%s" % (cname, workers, err[-300:]), replay)
                 continue
             stats["finished"] += 1
             u = res["units"][0]
-            if cnt.get("FREED_SLOT_ACCESS") and prop == "C15":
-                ev = [e for e in (res.get("events") or []) if e[2] == "!freed-slot-access"]
-                rep.violation("C15 threads (%s): access through a live handle to a slot freed while other threads ran (%s)" % (kind, jit),
-                              "config=%s workers=%d events=%s" % (cname, workers, json.dumps(ev[:2])[:600]), replay)
-                continue
+            if prop == "C15":
+                evs = res.get("events") or []
+                if cnt.get("RAN_WHILE_SCANNED"):
+                    ev = [e for e in evs if e[2] == "!ran-while-inspected"]
+                    site = ev[0][5] if ev else "?"
+                    rep.violation("C15 a thread runs %s while another thread inspects or replaces its state (%s)" % (site, ctx),
+                                  "kind=%s config=%s workers=%d events=%s" % (kind, cname, workers, json.dumps(ev[:3])[:500]), replay)
+                    continue
+                if cnt.get("FREED_SLOT_ACCESS"):
+                    ev = [e for e in evs if e[2] == "!freed-slot-access"]
+                    rep.violation("C15 threads (%s): access through a live handle to a slot freed while other threads ran (%s)" % (kind, ctx),
+                                  "config=%s workers=%d events=%s" % (cname, workers, json.dumps(ev[:2])[:600]), replay)
+                    continue
             got = u.get("emits") or []
             if u.get("panics"):
-                rep.violation("%s threads (%s): panic at %s (%s)" % (prop, kind, core.panic_sig(tuple(u["panics"][0])), jit),
+                rep.violation("%s threads (%s): panic at %s (%s)" % (prop, kind, core.panic_sig(tuple(u["panics"][0])), ctx),
                               "config=%s workers=%d" % (cname, workers), replay)
                 continue
             if not u.get("ok") or got != exp:
-                # which clause does the mismatch belong to?
-                mine = ("C16" if kind in ("channels", "channels-via-map", "mixed", "exit-during-stop", "collectors") else "C15")
-                if not u.get("ok"):
-                    mine = prop
-                if mine == prop:
-                    rep.violation("%s threads (%s): wrong result (%s)" % (prop, kind, jit),
+                if OWNER[kind] == prop or not u.get("ok"):
+                    what = "raises %s" % u.get("kind") if not u.get("ok") else "wrong result"
+                    rep.violation("%s threads (%s): %s (%s)" % (prop, kind, what, ctx),
                                   "config=%s workers=%d n=%d err=%s\nexpected=%s\nobserved=%s" % (cname, workers, n, u.get("err"), exp, got), replay)
                 continue
-            if len(rep.coverage["samples"]) < 5 and kind not in [s["kind"] for s in rep.coverage["samples"]]:
-                rep.sample({"kind": kind, "threads": workers, "config": cname, "forced_collections": cnt.get("FORCED_COLLECTIONS", 0),
+            if len(rep.coverage["samples"]) < 6 and kind not in [s["kind"] for s in rep.coverage["samples"]]:
+                rep.sample({"kind": kind, "threads": workers, "config": cname,
+                            "monitors": {k: cnt.get(k, 0) for k in SYNC_COUNTERS[:6]},
                             "program": src[len(PRELUDE):][:500], "emitted": got})
     rep.note("runs", stats)
-    rep.assumptions += ["schedules are whatever the OS produced on 6 concurrently running children; the deadline is 60 s per program "
-                        "(the programs finish in well under a second when they finish)",
-                        "the scan-overlap invariant of DESIGN §2 (H-sync) was not implemented: C15 is decided on freed-slot accesses, crashes, "
-                        "visibility of globals assigned by joined threads and exactness of mutex-protected counters"]
-    if stats["finished"] < nprog:
-        rep.inconclusive_note("only %d program runs finished" % stats["finished"], floor=stats["finished"] < nprog // 2)
+    rep.note("monitors_observed", observed)
+    rep.note("per_kind", per_kind)
+    rep.assumptions += ["schedules are whatever the OS produced on 8 concurrently running children, perturbed by the seeded delays at the "
+                        "handshake's suspension points (between a thread's last look at its pause flag and the retraction of its context; "
+                        "between a stop request and the inspection) and by forced collections",
+                        "stall = no H-prog counter moved for %d s (decided inside the child); the wall-clock cap of %d s is only a watchdog"
+                        % (STALL_MS // 1000, CAP_MS // 1000),
+                        "a natively compiled loop that makes no helper call dispatches no instruction; the generated programs allocate and call primitives in every loop"]
+    total = len(progs) * len(configs)
+    if observed["SCANS_OF_OTHER_THREADS"] < 200 or observed["STOP_THE_WORLD"] < 1000:
+        rep.inconclusive_note("too few world-stopping operations observed: %s" % observed, floor=True)
+    if stats["finished"] < total:
+        rep.inconclusive_note("only %d of %d program runs finished" % (stats["finished"], total), floor=stats["finished"] < total // 2)
     return rep.finish()
 
 
@@ -189,15 +327,26 @@ def main(tier):
     return run("C16", tier)
 
 
-def replay(path):
-    d = json.load(open(path))["replay"]
-    c = {"id": "r", "units": [d["src"]], "timeout_ms": 60000, "no_vals": True, "events": True}
-    c.update(d.get("opts") or {})
-    res, _ = core.run_cases([c], env=d.get("config"), shards=1)
-    r = res["r"]
-    print(json.dumps(r, indent=1)[:3000])
-    ok = r["status"] == "ok" and r["units"] and r["units"][0].get("emits") == d["expected"]
+def replay(path, prop="C16"):
+    d = json.load(open(path))
+    prop = d.get("property", prop)
+    d = d["replay"]
+    ok = True
+    for k in range(6):
+        c = {"id": "r", "units": [d["src"]], "timeout_ms": CAP_MS, "stall_ms": STALL_MS, "no_vals": True, "events": True,
+             "sync_seed": d.get("sync_seed", 1) + k}
+        c.update(d.get("opts") or {})
+        res, _ = core.run_cases([c], env=d.get("config"), shards=1)
+        r = res["r"]
+        cnt = r.get("counters") or {}
+        good = (r["status"] == "ok" and r["units"] and r["units"][0].get("emits") == d["expected"]
+                and not cnt.get("RAN_WHILE_SCANNED") and not cnt.get("FREED_SLOT_ACCESS"))
+        print("attempt %d: status=%s emits=%s monitors=%s %s" % (k, r["status"], (r["units"] or [{}])[0].get("emits"),
+              {x: cnt.get(x) for x in ("RAN_WHILE_SCANNED", "FREED_SLOT_ACCESS", "STOP_THE_WORLD", "SCANS_OF_OTHER_THREADS")}, r.get("stderr_tail", "")[-300:]))
+        if not good:
+            ok = False
+            break
     if not ok:
-        print("VIOLATION property=C16 replay=%s" % path)
+        print("VIOLATION property=%s replay=%s" % (prop, path))
         return 1
     return 0
